@@ -336,7 +336,14 @@ pub fn stress_case(case: &StressCase, obs: &mut Obs) -> Result<(), Fail> {
             let (pid, conn, origin) = &pool[(x % pool.len() as u64) as usize];
             match (x >> 8) % 4 {
                 0 | 1 => { let _ = driver.add(conn.clone(), *origin); }
-                2 => driver.remove(pid, DisconnectReason::Requested),
+                2 => {
+                    driver.remove(pid, DisconnectReason::Requested);
+                    // removal is immediate, whatever other threads are doing with the set
+                    if driver.get(pid).is_some() {
+                        done.store(true, std::sync::atomic::Ordering::SeqCst);
+                        vfail!("c04:remove-not-immediate", "remove() returned while the peer is still registered (other threads were listing/subscribing concurrently)");
+                    }
+                }
                 _ => driver.remove_with_stable_id(*pid, conn.stable_id(), DisconnectReason::ConnectionClosed),
             }
             seq.fetch_add(1, std::sync::atomic::Ordering::SeqCst);
@@ -386,6 +393,9 @@ pub enum NOp {
     Partition { a: u8, b: u8, ms: u16 },
     Subscribe { at: u8 },
     Rpc { from: u8, to: u8 },
+    /// `from` calls `to` with a handler that never finishes, then closes the connection; the
+    /// handler at `to` is cancelled by the close
+    SlowRpcThenClose { from: u8, to: u8 },
     Wait(u16),
 }
 
@@ -422,6 +432,7 @@ pub fn network_case(case: &NCase, obs: &mut Obs) -> Result<(), Fail> {
         }
         let mut generation = vec![0u32; n];
         let (mut n_crash, mut n_replaced) = (0, 0);
+        let mut n_slow_close = 0;
         // checks that hold at every instant: run them after every step without awaiting in between
         fn check_all(nodes: &[Node], subs: &mut Vec<NSub>, generation: &[u32], sub_gen: &[u32], what: &str) -> Result<(), Fail> {
             for (i, node) in nodes.iter().enumerate() {
@@ -502,6 +513,27 @@ pub fn network_case(case: &NCase, obs: &mut Obs) -> Result<(), Fail> {
                     let ctl = Ctl { id: step as u64, delay_ms: 0, status_idx: 0, resp_len: 4, resp_hdrs: 0, mode: 0 };
                     let _ = within(3_000, nodes[f].net.rpc(nodes[t].id(), ctl_request("/r", &[], &ctl, 30))).await;
                 }
+                NOp::SlowRpcThenClose { from, to } => {
+                    let (f, t) = (*from as usize % n, *to as usize % n);
+                    if f == t || !nodes[f].net.peers().contains(&nodes[t].id()) { continue; }
+                    let id = 70_000 + step as u64;
+                    let ctl = Ctl { id, delay_ms: 0, status_idx: 0, resp_len: 4, resp_hdrs: 0, mode: 1 };
+                    let net = nodes[f].net.clone();
+                    let target = nodes[t].id();
+                    let call = tokio::spawn(async move { let _ = net.rpc(target, ctl_request("/slow", &[], &ctl, 30)).await; });
+                    sleep_ms(50).await;
+                    if nodes[t].rec.find(id, Ev::Start).is_none() { call.abort(); continue; }
+                    let _ = nodes[f].net.disconnect(target);
+                    sleep_ms(100).await;
+                    call.abort();
+                    n_slow_close += 1;
+                    // the serving side has seen the connection closed: when it cancels the handler the
+                    // peer must no longer be in its listing
+                    match nodes[t].rec.snapshot().into_iter().find(|r| r.id == Some(id) && r.ev == Ev::Drop) {
+                        Some(d) => vensure!(d.peer_listed != Some(true), "c04:closed-peer-still-listed", "{what}: node {t} cancelled the handler of a request from node {f} because the connection was closed, and still listed that peer at that moment"),
+                        None => vfail!("c04:handler-survived-close", "{what}: node {t}'s handler for a request from node {f} is still running 100 ms after the connection was closed"),
+                    }
+                }
                 NOp::Wait(ms) => sleep_ms(*ms as u64).await,
             }
             check_all(&nodes, &mut subs, &generation, &sub_gen, &what)?;
@@ -520,6 +552,7 @@ pub fn network_case(case: &NCase, obs: &mut Obs) -> Result<(), Fail> {
         check_no_panics("during the connection history")?;
         obs.evals(case.ops.len() as u64);
         if n_crash > 0 { obs.label("crash-restart"); }
+        if n_slow_close > 0 { obs.label("handler-cancelled-by-remote-close"); }
         if n_replaced > 0 { obs.label("replacement-observed(Lost+New)"); }
         if n_crash > 0 || n_replaced > 0 {
             obs.nontrivial(&case);
@@ -533,7 +566,7 @@ impl Part for NetworkHistories {
     type Case = NCase;
     fn name(&self) -> &'static str { "network-histories" }
     fn rule(&self) -> &'static str {
-        "2-5 networks on the fabric (idle timeout 1-8 s, keep-alive on): histories of connect / disconnect / crash-without-close + restart with the same key / pairwise partition / late subscribe / rpc / wait; after EVERY step and after a quiet tail of 3 idle timeouts, with no await between draining a subscriber and listing: no duplicates, no self entry, snapshot + events == listing for every subscriber of the live incarnation, events alternate per peer; model-free invariants only (which connection survives a crash/restart race is left open by the statement); non-trivial = history with a crash/restart or an observed replacement (Lost+New back to back); distinct by history"
+        "2-5 networks on the fabric (idle timeout 1-8 s, keep-alive on): histories of connect / disconnect / crash-without-close + restart with the same key / pairwise partition / late subscribe / rpc / a never-finishing rpc followed by a close from the caller (the cancelled handler must see its peer already delisted) / wait; after EVERY step and after a quiet tail of 3 idle timeouts, with no await between draining a subscriber and listing: no duplicates, no self entry, snapshot + events == listing for every subscriber of the live incarnation, events alternate per peer; model-free invariants only (which connection survives a crash/restart race is left open by the statement); non-trivial = history with a crash/restart or an observed replacement (Lost+New back to back); distinct by history"
     }
     fn strategy(&self, _t: Tier) -> BoxedStrategy<NCase> {
         let op = prop_oneof![
@@ -543,6 +576,7 @@ impl Part for NetworkHistories {
             1 => (0u8..5, 0u8..5, 100u16..6000).prop_map(|(a, b, ms)| NOp::Partition { a, b, ms }),
             1 => (0u8..5).prop_map(|at| NOp::Subscribe { at }),
             2 => (0u8..5, 0u8..5).prop_map(|(from, to)| NOp::Rpc { from, to }),
+            2 => (0u8..5, 0u8..5).prop_map(|(from, to)| NOp::SlowRpcThenClose { from, to }),
             3 => prop_oneof![0u16..50, 50u16..3000].prop_map(NOp::Wait),
         ];
         (2u8..6, 1000u16..8000, prop::collection::vec(op, 1..25)).prop_map(|(nodes, idle_ms, ops)| NCase { nodes, idle_ms, ops }).boxed()
